@@ -166,7 +166,9 @@ def main(tier, seed):
                ("flat-other-format", FLAT, [c("", ["md5"])], ["xxh64"]),
                # every file first recorded in another format, the rename generation asks for a fourth one
                ("flat-mixed-formats", FLAT, [c("", ["xxh64"], sf=["p/a.txt"]), c("", ["md5"], sf=["p/b.txt"]), c("", ["sha1"], sf=["q/c.txt"])],
-                ["c4"])]
+                ["c4"]),
+               # an empty file (and a one-byte one) renamed while the rename generation uses another format than the recorded one
+               ("small-files-other-format", {"p": DIR, "q": DIR, "p/empty.lock": b"", "q/one.bin": b"1"}, [c("", ["md5"])], ["xxh64"])]
     if tier == "thorough":
         layouts.append(("flat4", FLAT4, [c("", ["xxh64"])], ["xxh64"]))
     for name, tree, prep, fmts in layouts:
